@@ -25,7 +25,10 @@ var pool = []poolItem{
 	{"fix0", `0`},
 	{"fix1", `1`},
 	{"fixm1", `-1`},
+	{"fix2", `2`},
 	{"fix3", `3`},
+	{"fix4", `4`},
+	{"fix8", `8`},
 	{"fix2e62", `4611686018427387904`},
 	{"big2e64", `18446744073709551616`},
 	{"ratio", `1/2`},
@@ -34,6 +37,9 @@ var pool = []poolItem{
 	{"chr", `#\a`},
 	{"str0", `""`},
 	{"str", `"abc"`},
+	{"strl", `"λ"`},
+	{"stral", `"aλ"`},
+	{"strj", `"日本語"`},
 	{"sym", `'c09-sym`},
 	{"fsym", `'c09-fn`},
 	{"kwend", `:end`},
@@ -100,7 +106,8 @@ func ensureGlobals(scope *slip.Scope) {
 }
 
 // buildArg makes the object for one argument descriptor: a pool name, or a literal "s:<text>"
-// (string), "i:<decimal>" (integer), "c:<char>" (character).
+// (string), "i:<decimal>" (integer), "c:<char>" (character), "k:<name>" (keyword), "e:<source>" (the
+// value of that Lisp source text).
 func buildArg(scope *slip.Scope, d string) slip.Object {
 	if i, ok := poolIndex[d]; ok {
 		return ev.MustEval(scope, pool[i].Src)
@@ -112,6 +119,10 @@ func buildArg(scope *slip.Scope, d string) slip.Object {
 		if n, err := strconv.ParseInt(d[2:], 10, 64); err == nil {
 			return slip.Fixnum(n)
 		}
+		return ev.MustEval(scope, d[2:])
+	case strings.HasPrefix(d, "k:"):
+		return slip.Symbol(":" + d[2:])
+	case strings.HasPrefix(d, "e:"):
 		return ev.MustEval(scope, d[2:])
 	case strings.HasPrefix(d, "c:"):
 		for _, r := range d[2:] {
